@@ -697,10 +697,11 @@ func (m *Module) EmitGenConvert(x Value, typ ValueType) (insts []wat.Inst) {
 	case typ.Equal(m.I64):
 		insts = append(insts, x.EmitPush()...)
 		switch {
-		case xt.Equal(m.I32): //Todo: xt.Equal(m.I8), xt.Equal(m.I16)
+		case xt.Equal(m.I32), xt.Equal(m.RUNE): //Todo: xt.Equal(m.I8), xt.Equal(m.I16)
+			// a signed source is sign-extended (rune is a signed 32-bit type)
 			insts = append(insts, wat.NewInstConvert_i64_extend_i32_s())
 
-		case xt.Equal(m.U8), xt.Equal(m.U16), xt.Equal(m.U32), xt.Equal(m.RUNE):
+		case xt.Equal(m.U8), xt.Equal(m.U16), xt.Equal(m.U32):
 			insts = append(insts, wat.NewInstConvert_i64_extend_i32_u())
 
 		case xt.Equal(m.I64), xt.Equal(m.U64):
@@ -717,10 +718,11 @@ func (m *Module) EmitGenConvert(x Value, typ ValueType) (insts []wat.Inst) {
 	case typ.Equal(m.U64):
 		insts = append(insts, x.EmitPush()...)
 		switch {
-		case xt.Equal(m.I32): //Todo: xt.Equal(m.I8), xt.Equal(m.I16)
-			insts = append(insts, wat.NewInstConvert_i64_extend_i32_u())
+		case xt.Equal(m.I32), xt.Equal(m.RUNE): //Todo: xt.Equal(m.I8), xt.Equal(m.I16)
+			// the extension follows the signedness of the source, not of the destination
+			insts = append(insts, wat.NewInstConvert_i64_extend_i32_s())
 
-		case xt.Equal(m.U8), xt.Equal(m.U16), xt.Equal(m.U32), xt.Equal(m.RUNE):
+		case xt.Equal(m.U8), xt.Equal(m.U16), xt.Equal(m.U32):
 			insts = append(insts, wat.NewInstConvert_i64_extend_i32_u())
 
 		case xt.Equal(m.I64), xt.Equal(m.U64):
